@@ -19,7 +19,8 @@ the same asset WITHOUT freq on the window made of the coarse steps, with the pri
 coarse step: same form (one / two variables per step), bounds of a fine step = bounds of its coarse step times
 dt_fine/dt_coarse, and for random coarse points z: same value and the same dispatch at every node and FINE step for the
 expanded point x_t = z_i * dt_t/dt_i.  Where the hypotheses of the theorem fail the violation carries the kind of the
-recorded finding (`coarse_wacc` F-13h, `coarse_varying_limits` F-13i, `coarse_varying_extra_costs` notes/findings_coarsebuild.md).
+recorded finding (`coarse_wacc` F-13h, `coarse_varying_limits` F-13i, `coarse_varying_extra_costs`: finding #1 of this package - extra costs varying inside a coarse step are
+sampled at its first fine step, not averaged).
 """
 import copy
 import os
@@ -43,7 +44,7 @@ KINDS = {'coarse_contract': 'SimpleContract', 'coarse_transport': 'Transport'}
 
 M = 'EAO.Properties.C13Builders'
 THEOREMS_C13_BUILDERS = [
-    (M, 'EAO.C13B.coarse_equiv_contract', 'SimpleContract with freq on a well-formed coarse grid, equal discount factors and constant capacities / extra costs inside every coarse step: the coarse problem and the fine problem (same asset without freq on the minor steps, price series averaged per coarse step) have the same form (1 or 2 variable blocks); every coarse point z expands (fine step t of coarse step i gets z_i*dt_t/dt_i) to a point with the same rate inside every coarse step that is feasible iff z is, costs the same and gives the same dispatch at every asset, node and FINE step; every fine point with equal rates is such an expansion'),
+    (M, 'EAO.C13B.coarse_equiv_contract', 'SimpleContract with freq on a well-formed coarse grid, equal discount factors and constant capacities / extra costs inside every coarse step: whenever the coarse problem is built the fine problem (same asset without freq on the minor steps, price series averaged per coarse step) is built too, and both have the same form (1 or 2 variable blocks); every coarse point z expands (fine step t of coarse step i gets z_i*dt_t/dt_i) to a point with the same rate inside every coarse step that is feasible iff z is, costs the same and gives the same dispatch at every asset, node and FINE step; every fine point with equal rates is such an expansion'),
     (M, 'EAO.C13B.coarse_equiv_transport', 'the same for Transport with freq (two mapping rows per variable, factors -1 and efficiency); the fine problem is shown to exist whenever the coarse one is built'),
     (M, 'EAO.C13B.coarse_equiv_contract_grid', 'from the grid up: top-level reference grid, cuts of whole coarse steps [s,e), scalar capacities and extra costs: the fine problem lives on ref.restrict s e and the only hypothesis about the data is equal discounting inside the coarse steps'),
     (M, 'EAO.C13B.coarsen_wellFormed', 'what Grid.coarsen makes of a top-level grid (indices 0..T-1, positive step lengths, increasing points) along non-decreasing cuts satisfies everything the builders use: per-step lists of equal length, distinct indices, every coarse step as long as its (existing, positive) minor steps together'),
@@ -493,7 +494,12 @@ def _disp(mapping, x, tol_zero=False):
     return d
 
 
-def oracle(case, impl_result, rnd=None):
+def oracle(case, impl_result):
+    """list of violation dicts {oracle, detail, facts} (see `oracle_ex`)"""
+    return oracle_ex(case, impl_result)[0]
+
+
+def oracle_ex(case, impl_result, rnd=None):
     """violations of the statement `coarse problem = fine problem with averaged prices + same rate inside a coarse step` on the
     real code.  Returns (violations, features)."""
     rnd = rnd or random.Random(12345)
@@ -529,6 +535,12 @@ def oracle(case, impl_result, rnd=None):
                     if k != 'extra_costs':
                         caps_const = caps_const and ok_k
     except Exception as e:
+        a_ = case['spec']['args']
+        scalars = all(isinstance(a_.get(k, 0.), (int, float)) for k in ('min_cap', 'max_cap', 'extra_costs'))
+        if scalars:
+            # constant parameters: the fine problem exists whenever the coarse one does (`fine_builds`, `coarse_equiv_transport`)
+            return [{'oracle': 'fine_builds', 'detail': 'the coarse problem is built but the same asset without freq on the coarse steps raises %s: %s' % (
+                type(e).__name__, str(e)[:120]), 'facts': {'kind': None, 'asset_type': case['spec']['type']}}], ['oracle:fine-error-scalars']
         return [], ['oracle:fine-error-' + err_class(e)]
     if fI != flat:
         return [], ['oracle:unjudged-window']
@@ -649,7 +661,7 @@ def run_case(case, drv, rnd=None):
             d, f = compare_fine(case, r, mres['ok'])
             rec['disagreements'] += d
             rec['features'] += f
-        v, f = oracle(case, r, rnd)
+        v, f = oracle_ex(case, r, rnd)
         rec['violations'] = v
         rec['features'] += f
     return rec
@@ -679,7 +691,7 @@ class ScratchDriver:
 
 
 KNOWN_KINDS = {'coarse_wacc': 'F-13h', 'coarse_varying_limits': 'F-13i',
-               'coarse_varying_extra_costs': 'notes/findings_coarsebuild.md #1 (same nature as F-13i, for extra_costs)'}
+               'coarse_varying_extra_costs': 'pkg-coarsebuild finding #1 (same nature as F-13i, for extra_costs; candidate for known_findings.json)'}
 
 
 def selftest(n, seed, drv, verbose=False):
